@@ -87,6 +87,7 @@ def run(F, R, ctx):
     identity_field_rule(F, R)
     symbol_identity_rule(F, R)
     visited_rules(F, R)
+    shortcut_rule(F, R)
     for v in sorted(hc):
         R.inst("C11.h", "hash arm %s is implemented" % v, hc[v][0] != "panic",
                "<SteelVal as Hash>::hash panics for SteelVal::%s: using such a value as a key aborts the host" % v, h.loc(),
@@ -606,3 +607,71 @@ def symbol_identity_rule(F, R):
                "memq / case, which compare symbols by address, do not recognise them as the symbols written in the program"
                % (k, "walk_constants" if k not in wa else "add_or_get (the entry that decides whether to walk)"),
                wc.loc(), sample={"walk_arms": sorted(wa), "entry_arms": sorted(ga)})
+
+
+KIND_ONLY_CALL = r"core::mem::discriminant$|\{impl PartialEq(<[^}]*>)? for Discriminant<T>\}::(eq|ne)$|core::intrinsics::discriminant_value$"
+
+
+def shortcut_rule(F, R):
+    from . import pairmatch
+    R.rule("C11.x", "a shortcut never calls a pair of values unequal that the full comparison can call equal: "
+                    "RecursiveEqualityHandler::visit has arms for pairs of *different* kinds (derived by simulating its "
+                    "decision tree: mutable vs immutable vector, …); every other `match` on a pair of SteelVals in the "
+                    "equality machinery (the inner matches of visit and of the functions of rvals::cycles it calls that take "
+                    "two values and answer bool / Option<bool>) is simulated for each such pair: from the arm it takes, an "
+                    "answer `false` / `Some(false)` must not be reachable through kind tests alone (mem::discriminant "
+                    "comparisons, no look at the contents). nc: otherwise two values that are equal? at top level are unequal "
+                    "as elements of a list — equal? is not a congruence")
+    fn, tup, top_v, pair_arm, hdr = _visit_tree(F)
+    kinds = [v["name"] for v in F.adt("SteelVal")["variants"]]
+    fall = pair_arm("Void", "BoolV")
+    cross = [(l, r) for l in kinds for r in kinds if l != r and pair_arm(l, r) != fall]
+    if not cross:
+        raise CheckError("anchor lost: RecursiveEqualityHandler::visit has no arm for two values of different kinds")
+    cands = {fn.name: fn}
+    for _, cb in lib.deep_calls(F, fn, depth=2):
+        c = F.fns.get(cb["callee"])
+        if c is not None and c.name.startswith("steel::rvals") and re.match(r"(bool|Option<bool>)", c.d["out"]) and \
+                sum(1 for t in c.d["in"] if t in ("&SteelVal", "SteelVal")) >= 2 and \
+                not re.search(r"\{impl PartialEq<SteelVal> for SteelVal\}::eq$", c.name):
+            cands[c.name] = c
+    n = 0
+    for name, f in sorted(cands.items()):
+        for pm in pairmatch.pair_matches(f):
+            if f is fn and pm.top in (top_v,) + tuple(hdr):
+                continue
+            if f is fn and pm.tup == tup:
+                continue
+            offenders, where_ = [], None
+            for (l, r) in cross:
+                e = pm.arm(l, r)
+                # blocks reachable from the arm entry through kind-only calls
+                seen, st, bad = set(), [e], None
+                while st and bad is None:
+                    b = st.pop()
+                    if b in seen:
+                        continue
+                    seen.add(b)
+                    blk = f.blocks[b]
+                    for ev in blk["e"]:
+                        if ev[0] == "kv" and ev[1].split(".")[0] == "_0" and ev[2] in ("const:0", "wrapped:Option::Some(const:0)"):
+                            bad = b
+                    if blk["k"] == "call" and not re.search(KIND_ONLY_CALL, blk["callee"]) and not (
+                            re.search(r"core::cmp::PartialEq::(eq|ne)$", blk["callee"]) and any("Discriminant" in t for t in blk["targs"])):
+                        continue
+                    if blk["k"] == "switch" and blk["on"].startswith("enum:SteelVal") is False and blk["on"] not in ("bool",):
+                        continue
+                    for t in f.succ(b):
+                        st.append(t)
+                if bad is not None:
+                    offenders.append((l, r))
+                    where_ = where_ or f.blocks[bad].get("line") or f.blocks[e].get("line")
+            n += 1
+            R.inst("C11.x", "%s / inner match on %s decides no cross-kind comparable pair `unequal` by kind alone" % (f.short(), pm.tup),
+                   not offenders,
+                   "%s answers `unequal` for %d kind pairs after looking only at the kinds (e.g. %s; line %s), but "
+                   "RecursiveEqualityHandler::visit has arms that compare such pairs by contents: the two values are equal? on "
+                   "their own and unequal inside a list" % (f.short(), len(offenders), ", ".join("(%s, %s)" % p for p in offenders[:4]), where_),
+                   f.loc(where_), sample={"pairs_simulated": len(cross), "offending": offenders[:8]})
+    R.note("C11.x: cross-kind pairs with an arm in visit: %s" % ", ".join("(%s, %s)" % p for p in cross))
+    R.floor("C11.x", "inner pair matches in the equality machinery", n, 1)
